@@ -128,6 +128,14 @@ class Integrity:
                         out.append(('timing-reference-names-missing-file',
                                     f'stream {spk} ({directory}) timing_ref {ref.get("media_name")} '
                                     f'(files: {sorted(by_stream.get(spk, set()))})'))
+            # 5b the files of a stream live in <blob folder>/<directory>: that must be a directory of its own
+            # inside the blob folder
+            import os.path
+            for spk, (pk, directory, title, tref) in streams.items():
+                norm = os.path.normpath(os.path.join('/blobs', str(directory)))
+                if not norm.startswith('/blobs/') or '\0' in str(directory) or os.path.dirname(norm) != '/blobs':
+                    out.append(('stream-directory-outside-its-place-in-the-blob-store',
+                                f'stream {spk}: directory {directory!r} resolves to {norm!r}'))
             # 6 uniqueness
             for table, col in (('Stream', 'directory'), ('media_file', 'name'), ('Blob', 'filename'), ('Key', 'hkid'),
                                ('mp_stream', 'name')):
@@ -306,6 +314,8 @@ class History:
         kind = rng.choice(choices)
         if kind == 'add-stream':
             d = rng.choice(['alpha', 'beta', 'gamma', 'delta', 'alpha', f's{tag}'])
+            if rng.random() < 0.06:
+                d = rng.choice(['..', '.', '../up', 'a/b', '/abs', 'x/../../y', ''])     # free text, as the API takes it
             if rng.random() < 0.5:
                 op = G.op_add_stream(d, f'Stream {d} {tag}')
                 if rng.random() < 0.2:
